@@ -255,7 +255,7 @@ check("C18", "memtable ordered multi-version map", [
        "<=2 operations, free 1-byte keys, arbitrary sequence numbers below wal.MaxSequenceNumber (ties, non-monotone), tower height <=2", "<=3 operations", q={"maxzeros": 1}, t={"maxzeros": 1}),
     ob("VerifC18_PoolNewestFirst", "pkg/memtable", "MemTablePool: writes spread over active and switched tables; Get returns the newest version", "<=4 steps over put/delete/switch, one key"),
     ob("VerifC18_ReaderVsInsert", "pkg/memtable", "one writer (MemTable.Put) vs. one reader (Get / full iteration / Seek(t)+Next*): reader terminates, sorted, sees everything inserted before it started, nothing never inserted, Seek never below its target",
-       "<=2 pre-existing entries + 1 concurrent insert, preemption bound 1, tower height 1", "preemption bound 2, tower height <=2", q={"preempt": 1}, t={"preempt": 2, "maxzeros": 1}, no_validate=True, termination=True),
+       "<=2 pre-existing entries + 1 concurrent insert, reader's iterator created before or after the writer starts, preemption bound 1, tower height <=2", "preemption bound 2, tower height <=2", q={"preempt": 1, "maxzeros": 1}, t={"preempt": 2, "maxzeros": 1, "budget_s": 1200}, no_validate=True, termination=True),
     ob("VerifC18_FindHighestSeq", "pkg/memtable", "SkipList.Insert/Find: entry of highest sequence number wins, absent keys not found",
        "<=3 inserts, free 1-byte keys, arbitrary 64-bit sequence numbers, tower height <=2", "same, tower height <=3",
        q={"maxzeros": 1}, t={"maxzeros": 2}),
